@@ -412,6 +412,58 @@ func runC12(tier string) int {
 	if !done || !longDone {
 		r.NotExhaustive("job list not completed")
 	}
+	// the number of poryswitch statements in a file: N statements of one kind (text, movement, mart, script, a script with
+	// a poryswitch nested in a poryswitch, or all kinds in turn), each with a poryswitch of its own, for every N up to the
+	// bound - the file equals the file with every selected case written out
+	maxStmts := 160
+	if tier == "thorough" {
+		maxStmts = 600
+	}
+	manyDone := r.Parallel(uint64(maxStmts)*6*2, func(w int, idx uint64) {
+		n, kind, v := int(idx/12)+1, int(idx/2%6), []string{"A", "Z"}[idx%2]
+		var sb, sel strings.Builder
+		pick := func(a, other string) string {
+			if v == "A" {
+				return a
+			}
+			return other
+		}
+		for i := 0; i < n; i++ {
+			k := kind
+			if kind == 5 {
+				k = i % 5
+			}
+			switch k {
+			case 0:
+				fmt.Fprintf(&sb, "text T%d {\n\tporyswitch(V) {\n\t\tA: \"a %d\"\n\t\t_: \"other %d\"\n\t}\n}\n", i, i, i)
+				fmt.Fprintf(&sel, "text T%d {\n\t\"%s %d\"\n}\n", i, pick("a", "other"), i)
+			case 1:
+				fmt.Fprintf(&sb, "movement M%d {\n\tpre%d\n\tporyswitch(V) {\n\t\tA { a%d * 2 }\n\t\t_ { other%d }\n\t}\n}\n", i, i, i, i)
+				fmt.Fprintf(&sel, "movement M%d {\n\tpre%d\n\t%s\n}\n", i, i, pick(fmt.Sprintf("a%d * 2", i), fmt.Sprintf("other%d", i)))
+			case 2:
+				fmt.Fprintf(&sb, "mart R%d {\n\tporyswitch(V) {\n\t\tA: ITEM_A%d\n\t\t_: ITEM_O%d\n\t}\n\tITEM_LAST%d\n}\n", i, i, i, i)
+				fmt.Fprintf(&sel, "mart R%d {\n\t%s\n\tITEM_LAST%d\n}\n", i, pick(fmt.Sprintf("ITEM_A%d", i), fmt.Sprintf("ITEM_O%d", i)), i)
+			case 3:
+				fmt.Fprintf(&sb, "script S%d {\n\tporyswitch(V) {\n\t\tA: msgbox(\"sa %d\")\n\t\t_: msgbox(\"so %d\")\n\t}\n\tz%d\n}\n", i, i, i, i)
+				fmt.Fprintf(&sel, "script S%d {\n\tmsgbox(\"%s %d\")\n\tz%d\n}\n", i, pick("sa", "so"), i, i)
+			default:
+				fmt.Fprintf(&sb, "script N%d {\n\tporyswitch(V) {\n\t\tA {\n\t\t\tporyswitch(W) {\n\t\t\t\t1: na%d\n\t\t\t\t_: nb%d\n\t\t\t}\n\t\t}\n\t\t_ { no%d }\n\t}\n}\n", i, i, i, i)
+				fmt.Fprintf(&sel, "script N%d {\n\t%s\n}\n", i, pick(fmt.Sprintf("na%d", i), fmt.Sprintf("no%d", i)))
+			}
+		}
+		o := comp.Opts{Optimize: true, Switches: map[string]string{"V": v, "W": "1"}}
+		res, ref := comp.Compile(sb.String(), o), comp.Compile(sel.String(), o)
+		r.Add("evaluations", 1)
+		r.Add("nontrivial", 1)
+		r.Add("many_poryswitch_files", 1)
+		if res.Err != nil || ref.Err != nil || res.Panic != "" || res.Out != ref.Out {
+			r.Report(harness.Violation{Sig: fmt.Sprintf("C12:many-statements:kind%d", kind), Summary: fmt.Sprintf("file with %d statements (kind %d) that each hold a poryswitch, -s V=%s: error %v %s / %v; %s", n, kind, v, res.Err, firstLine(res.Panic), ref.Err, firstDiff(res.Out, ref.Out)), Replay: map[string]interface{}{"source": sb.String(), "switches": o.Switches, "selected_source": sel.String(), "output": res.Out, "selected_output": ref.Out}})
+		}
+	})
+	if !manyDone {
+		r.NotExhaustive("files with many poryswitch statements not completed")
+	}
+	r.Set("many_poryswitch_statements_max", maxStmts)
 	r.Set("long_max_cases", maxK+3)
 	r.Set("positions", len(positions))
 	r.Set("case_label_lists", len(lists))
